@@ -71,7 +71,10 @@ type scg struct {
 	cond    int      // >0: conditionally evaluated position (no def here)
 	self    []string // self[fnDepth]: name of the defn whose body we are in at that function level ("" for fn)
 	feat    map[string]bool
-	allowK4 bool
+	// avoidSelfHead: do not use the name of the defn being compiled as the head of a call in
+	// its own body (before fix C03-01 such a call was compiled as a self tail call even where
+	// the name is shadowed). Off: the repaired code is what the model follows.
+	avoidSelfHead bool
 	// Termination discipline. A binding that holds closures has a rank; whatever is stored
 	// in it (by def, by a later def in the same scope, by set) refers only to bindings of
 	// lower rank, so no chain of calls through named bindings comes back to where it
@@ -260,7 +263,7 @@ func (e *scg) intTest(d int) *nd {
 // would be compiled as a self tail call even where the name is shadowed).
 func (e *scg) callee(t sty, d int) *nd {
 	c := e.candidates(t, false)
-	if !e.allowK4 {
+	if e.avoidSelfHead {
 		self := e.self[len(e.self)-1]
 		var c2 []string
 		for _, n := range c {
@@ -809,6 +812,17 @@ var scopeShapes = []struct{ name, text string }{
 	{"!closure called from a loop body in another function", "(def $X 7) (defn $Y [] $X) (defn $Z [] (def q 0) (for [(def $X 0) (< $X 2) (set $X (+ $X 1))] (set q (+ q ($Y)))) q) ($Z)"},
 	{"tail call into another function", "(def $X 1) (defn $Y [] $X) (defn $Z [$X] ($Y)) (defn q [$X] ($Z (+ $X 1))) (q 5)"},
 	{"self tail call then free variable", "(def $X 9) (defn $Y [] $X) (defn $Z [$X q] (cond (== $X 0) (+ q ($Y)) ($Z (- $X 1) (+ q 1)))) ($Z 3 0)"},
+	{"!self as a value keeps recursing (tail call stays a jump)", "(defn $X [$Y $Z] (cond (== $Y 0) (len $Z) ($X (- $Y 1) (cons $X $Z)))) ($X 120 (list))"},
+	{"!self as a value, then called through the value", "(defn $X [$Y $Z] (cond (== $Y 0) $Z ($X (- $Y 1) (+ $Z ((first (list $X)) 0 1))))) ($X 5 0)"},
+	{"self name re-bound by set, then called", "(defn $X [$Y] (set $X (fn [$Z] (+ $Z 7))) ($X $Y)) [($X 1) ($X 1)]"},
+	{"self name re-bound by an inner closure", "(defn $X [$Y] ((fn [] (set $X (fn [$Z] (+ $Z 7))))) ($X $Y)) [($X 1) ($X 1)]"},
+	{"self name shadowed by a parameter", "(defn $X [$X] ($X $N)) ($X (fn [$Y] (+ $Y 1)))"},
+	{"self name shadowed by let", "(defn $X [$Y] (let [$X (fn [$Z] (+ $Z $Y))] ($X $N))) ($X 1)"},
+	{"self name shadowed by letseq", "(defn $X [$Y] (letseq [$Z 1 $X (fn [q] (+ q $Y $Z))] ($X $N))) ($X 1)"},
+	{"self name shadowed by def", "(defn $X [$Y] (def $X (fn [$Z] (+ $Z $Y))) ($X $N)) ($X 1)"},
+	{"self name shadowed by an inner defn", "(defn $X [$Y] (defn $X [] $Y) ($X)) [($X 5) ($X 6)]"},
+	{"self name shadowed in a nested scope only", "(defn $X [$Y] (cond (== $Y 0) 0 (begin (newScope (def $X 5) (trace $X)) ($X (- $Y 1))))) ($X 2)"},
+	{"self name is an array parameter", "(defn $X [$Y $X] (cond (== $Y 0) $X ($X (- $Y 1) (append $X (fn [] $Y))))) ($X 3 [])"},
 	{"maker called in a tail-recursive loop", "(defn $Z [$X] (fn [] $X)) (defn $Y [$X q] (cond (== $X 0) q ($Y (- $X 1) (append q ($Z $X))))) (map (fn [r] (r)) ($Y 3 []))"},
 }
 
